@@ -382,6 +382,10 @@ func (fd *Client) Query(ctx context.Context, input *dynamodb.QueryInput, opt ...
 		return nil, &smithy.GenericAPIError{Code: "ValidationException", Message: "The table does not have the specified index: " + indexName}
 	}
 
+	if err := table.ValidateStartKey(indexName, mapDynamoToTypesMapItem(input.ExclusiveStartKey)); err != nil {
+		return nil, mapKnownError(err)
+	}
+
 	if input.ScanIndexForward == nil {
 		input.ScanIndexForward = aws.Bool(true)
 	}
@@ -422,6 +426,10 @@ func (fd *Client) Scan(ctx context.Context, input *dynamodb.ScanInput, opt ...fu
 
 	if _, ok := table.Indexes[indexName]; indexName != "" && !ok {
 		return nil, &smithy.GenericAPIError{Code: "ValidationException", Message: "The table does not have the specified index: " + indexName}
+	}
+
+	if err := table.ValidateStartKey(indexName, mapDynamoToTypesMapItem(input.ExclusiveStartKey)); err != nil {
+		return nil, mapKnownError(err)
 	}
 
 	items, lastKey := table.SearchData(core.QueryInput{
